@@ -41,6 +41,7 @@ def quiet():
     lg.setLevel(logging.CRITICAL + 10)
 
 
+_REUSE = [False]    # the trait definition object was already used as an attribute of ANOTHER class before
 _ORIG = [False]     # typed traits: the validator returns a WRAPPED value while the trait stores the original one
                     # (setattr_original_value, as Expression / AdaptsTo do): handlers are told what is readable
 
@@ -51,7 +52,7 @@ class Wrapped(object):
 
 
 def get_class(cfg):
-    key = (cfg["mode"], cfg["kind"], cfg["typed"], cfg["shape"], _ORIG[0] and cfg["typed"] and cfg["kind"] == "trait")
+    key = (cfg["mode"], cfg["kind"], cfg["typed"], cfg["shape"], _ORIG[0] and cfg["typed"] and cfg["kind"] == "trait", _REUSE[0])
     if key in _cls:
         return _cls[key]
     build.install()
@@ -109,7 +110,10 @@ def get_class(cfg):
             raise RuntimeError("handler %s raises" % mech)
     magic = "_x_fired" if cfg["kind"] == "event" else "_x_changed"
     ns = {"x": tr, "y": NoBad(), "_rec": _rec, "_log": None, "_raising": ()}
-    name = "C02_%s_%s_%s_%s_%s" % key
+    if key[5]:
+        # one definition object, two classes: the second class must see the comparison mode it was declared with
+        type("C02_FirstUser", (HasTraits,), {"q": tr})
+    name = "C02_%s_%s_%s_%s_%s_%s" % key
     if cfg["shape"] == "plain":
         ns["_anytrait_changed"] = anytrait
         ns[magic] = static
@@ -150,9 +154,10 @@ BADCALL = _BadCall()
 class World(object):
     """one object + fresh value objects for a history"""
 
-    def __init__(self, cfg, raising, regs=DYNAMIC, orig=False):
+    def __init__(self, cfg, raising, regs=DYNAMIC, orig=False, reuse=False):
         from traits.api import Undefined
         _ORIG[0] = orig
+        _REUSE[0] = reuse
         import numpy
         self.cfg = cfg
         self.tok2obj = {"v1": tuple([1, 2]), "v1e": tuple([1, 2]), "v2": tuple([3]), "nanA": float("nan"),
@@ -161,6 +166,7 @@ class World(object):
         self.id2tok = {id(o): t for t, o in self.tok2obj.items()}
         cls = get_class(cfg)
         _ORIG[0] = False
+        _REUSE[0] = False
         obj = cls.__new__(cls)
         obj.__dict__["_log"] = []
         obj.__dict__["_raising"] = tuple(raising)
@@ -305,7 +311,7 @@ def case_fn(st, rep):
         return None
     cfg = {"mode": str(last["cfg"]["mode"]), "kind": str(last["cfg"]["kind"]), "typed": bool(last["cfg"]["typed"]),
            "shape": str(last["cfg"]["shape"])}
-    w = World(cfg, RAISING_SETS[rep], orig=(rep % 3 == 1))
+    w = World(cfg, RAISING_SETS[rep], orig=(rep % 3 == 1), reuse=(rep % 2 == 1))
     w.quiet_form = rep % 2
     if cfg["kind"] == "event" and last["pre"] != "unset":
         return None
@@ -325,7 +331,7 @@ def history_lines(seed, ntraces, steps):
         cfg = {"mode": rnd.choice(["none", "identity", "equality"]), "kind": "trait" if rnd.random() < 0.85 else "event",
                "typed": rnd.random() < 0.5, "shape": rnd.choice(["plain", "inherited", "bare", "bare", "wild"])}
         raising = [m for m in MECHS if rnd.random() < 0.25]
-        w = World(cfg, raising, regs=[m for m in DYNAMIC if rnd.random() < 0.3], orig=rnd.random() < 0.3)
+        w = World(cfg, raising, regs=[m for m in DYNAMIC if rnd.random() < 0.3], orig=rnd.random() < 0.3, reuse=rnd.random() < 0.4)
         w.quiet_form = rnd.randint(0, 1)
         for _ in range(steps):
             u = rnd.random()
